@@ -459,3 +459,125 @@ pub fn run_mt_tx(args: &MtArgs) -> Outcome {
     let _ = std::fs::remove_dir_all(&root);
     out
 }
+
+
+/// C14, "the write stall mechanisms always let writers proceed eventually": tight-loop writers on
+/// their own keys against tiny memtables and few workers, so that the worker queue fills up with
+/// rotation requests.  No trace is recorded; a watchdog reports writers that make no progress.
+pub fn run_flood(out_dir: &std::path::Path, seed: u64, rounds: u64, secs: u64) -> Outcome {
+    use std::sync::atomic::{AtomicBool, AtomicU64, Ordering};
+    let mut out = Outcome::default();
+    let root = crate::util::scratch_root();
+    for round in 0..rounds {
+        let dir = fresh_dir(&root, &format!("flood{round}"));
+        let workers = if round % 3 == 2 { 1 } else { 2 };
+        let writers = if round % 2 == 0 { 4 } else { 2 };
+        let db = match Database::builder(&dir).worker_threads(workers).open() {
+            Ok(d) => d,
+            Err(e) => {
+                out.notes.push(format!("open failed: {e:?}"));
+                continue;
+            }
+        };
+        let ks = db.keyspace("a", || KeyspaceCreateOptions::default().max_memtable_size(1_000)).unwrap();
+        let stop = Arc::new(AtomicBool::new(false));
+        let progress = Arc::new(AtomicU64::new(0));
+        let mut handles = vec![];
+        for t in 0..writers {
+            let ks = ks.clone();
+            let stop = stop.clone();
+            let progress = progress.clone();
+            handles.push(std::thread::spawn(move || {
+                let mut n: u64 = 0;
+                let key = format!("key-{t}");
+                while !stop.load(Ordering::Relaxed) {
+                    n += 1;
+                    if ks.insert(key.as_bytes(), format!("{:08}-{}", n, seed).as_bytes()).is_err() {
+                        break;
+                    }
+                    progress.fetch_add(1, Ordering::Relaxed);
+                }
+                n
+            }));
+        }
+        // watchdog: progress must not stall for 5 s
+        let start = std::time::Instant::now();
+        let mut last = 0u64;
+        let mut last_change = std::time::Instant::now();
+        let mut stuck = false;
+        while start.elapsed().as_secs() < secs {
+            std::thread::sleep(std::time::Duration::from_millis(100));
+            let p = progress.load(Ordering::Relaxed);
+            if p != last {
+                last = p;
+                last_change = std::time::Instant::now();
+            } else if last_change.elapsed().as_secs() >= 5 {
+                stuck = true;
+                break;
+            }
+        }
+        stop.store(true, Ordering::Relaxed);
+        if !stuck {
+            // the writers must come back now
+            let (tx, rx) = std::sync::mpsc::channel();
+            let n = handles.len();
+            for h in handles {
+                let tx = tx.clone();
+                std::thread::spawn(move || {
+                    let _ = tx.send(h.join().unwrap_or(0));
+                });
+            }
+            let mut written = vec![];
+            for _ in 0..n {
+                match rx.recv_timeout(std::time::Duration::from_secs(10)) {
+                    Ok(x) => written.push(x),
+                    Err(_) => {
+                        stuck = true;
+                        break;
+                    }
+                }
+            }
+            if !stuck {
+                // nothing lost: every writer's key holds its last acknowledged value
+                for t in 0..writers {
+                    let got = ks.get(format!("key-{t}").as_bytes()).ok().flatten().map(|b| String::from_utf8_lossy(&b).to_string());
+                    let ok = got.as_ref().map_or(false, |g| written.iter().any(|n| *g == format!("{:08}-{}", n, seed) || *g == format!("{:08}-{}", n.saturating_sub(1), seed)));
+                    if !ok {
+                        out.violations.push(json!({"replay": out_dir.join("flood.json").to_string_lossy(), "step": round,
+                            "first": format!("flood round {round}: key-{t} reads {got:?}, not the last value a writer was acknowledged")}));
+                    }
+                }
+            }
+        }
+        out.behaviours += 1;
+        out.steps += progress.load(Ordering::Relaxed);
+        out.distinct.insert(hash_str(&format!("flood{round}")));
+        if out.samples.is_empty() {
+            out.samples.push(json!({"round": round, "workers": workers, "writers": writers, "writes": progress.load(Ordering::Relaxed),
+                "sealed": ks.sealed_memtable_count(), "tables": ks.table_count()}));
+        }
+        if stuck {
+            let rp = out_dir.join("flood.json");
+            let _ = std::fs::write(&rp, serde_json::to_string_pretty(&json!({"kind": "flood", "round": round, "workers": workers, "writers": writers,
+                "writes_before_stall": progress.load(Ordering::Relaxed), "sealed_memtables": ks.sealed_memtable_count()})).unwrap());
+            out.violations.push(json!({"replay": rp.to_string_lossy(), "step": round,
+                "first": format!("flood round {round} ({writers} writers, {workers} workers, memtable 1000 bytes): no write returned for 5 s after {} writes - writers are blocked for ever", progress.load(Ordering::Relaxed))}));
+            std::mem::forget(ks);
+            std::mem::forget(db);
+            return out;
+        }
+        drop(ks);
+        let (tx, rx) = std::sync::mpsc::channel();
+        std::thread::spawn(move || {
+            drop(db);
+            let _ = tx.send(());
+        });
+        if rx.recv_timeout(std::time::Duration::from_secs(30)).is_err() {
+            out.violations.push(json!({"replay": out_dir.join("flood.json").to_string_lossy(), "step": round, "first": "dropping the database after the flood did not return within 30 s"}));
+            return out;
+        }
+        let _ = std::fs::remove_dir_all(&dir);
+    }
+    let _ = std::fs::remove_dir_all(&root);
+    out
+}
